@@ -1,5 +1,6 @@
 import CifModel.Lemmas.Dialect
 import CifModel.Props.C12Scan
+import CifModel.Props.C01
 /-
   Property C11 — CIF version and character encoding are selected exactly as documented.
 
@@ -127,6 +128,122 @@ theorem C11_bom_only_first :
   have hd := C12_disallowed_char .cif2 0xFEFF (by decide)
   refine ⟨by decide, fun dia => by cases dia <;> decide, hd.1, fun line col => hd.2.2 rfl line col, fun prefer force cfg h ht => ?_⟩
   simp [select, stage2, ht]
+
+/-! ### U+FEFF BETWEEN tokens (at a place where a token may begin), scanner level
+
+  parser.c: next_token() reads the unit with NEXT_CHAR and dispatches on its class.  U+FEFF is above CHAR_TABLE_MAX: its class is
+  C_GENERAL in the CIF 2.0 table and NO_CLASS after SET_V1, in both cases none of the classes with a case of their own, so the
+  `default:` branch backs up and calls scan_unquoted(): the U+FEFF BEGINS A WHITESPACE-DELIMITED VALUE.  SCAN_UCHAR reports it
+  there — CIF_DISALLOWED_CHAR once ("disallowed BMP character"), in CIF 1.1 mode a second time ("c > CIF1_MAX_CHAR") — and
+  recovers by accepting the character: it stays in the value.  scan_ws() itself never looks at it (U+FEFF is not whitespace to
+  the scanner: the run of whitespace ends in front of it).  Only get_first_char() treats U+FEFF specially. -/
+
+private theorem bom_cls2 : Model.Chars.classOf .cif2 0xFEFF = .general := by decide
+private theorem bom_cls1 : Model.Chars.classOf .cif1 0xFEFF = .no := by decide
+private theorem bom_d : (Model.Chars.Cls.general == Model.Chars.Cls.d) = false := by decide
+private theorem bom_s : (Model.Chars.Cls.general == Model.Chars.Cls.s) = false := by decide
+
+open Model.Lexer Model.Chars Gen.ErrCodes in
+/-- **C11, U+FEFF where a token may begin — what one iteration of next_token's loop does, for EVERY callback policy, both
+    dialects, any input behind it, with or without whitespace in front** (`afterWs`): the CIF_MISSING_SPACE report of a token
+    that follows another without whitespace (if so), then CIF_DISALLOWED_CHAR for the U+FEFF at its column — ONCE in CIF 2.0
+    mode, TWICE in CIF 1.1 mode — and then scan_unquoted goes on behind the U+FEFF with the U+FEFF as the first character of the
+    value (offset 1; in CIF 2.0 mode it has cleared the `data_` / `save_` keyword flags, in CIF 1.1 mode, where its class is
+    NO_CLASS, it has not), followed by the reserved-word classification of that value.  Each report may end the scan: the
+    equation is between scanner actions (functions of the policy and the log). -/
+theorem C11_bom_token_start (dia : Dialect) (afterWs : Bool) (r : Str) (line col : Nat) :
+    stepTok dia afterWs 0xFEFF r line col =
+      (do reportIf (!afterWs) CIF_MISSING_SPACE line col
+          report CIF_DISALLOWED_CHAR line (col + 1)
+          reportIf (dia == .cif1) CIF_DISALLOWED_CHAR line (col + 1)
+          let s ← scanUnquoted dia r line (col + 1) false [0xFEFF] 1 (dia == .cif1) (dia == .cif1)
+          finishUnquoted dia afterWs s.acc.reverse s.pos) := by
+  funext pol log
+  cases dia <;> cases afterWs <;>
+    simp [stepTok, scanUnquoted, scanUChar, bom_cls1, bom_cls2, metaOfCls, reportIf, isTrail, isLead, disallowedBmp, cif1MaxChar, fixAcc,
+      dataCls, saveCls, bind, L.bind, pure, L.pure] <;>
+    (repeat' split) <;> simp_all [bom_cls1, bom_cls2, bom_d, bom_s]
+
+private theorem bom_not_reserved (s2 : Str) : Spec.Lexical.isReservedWord (0xFEFF :: s2) = false := by
+  have h : Spec.Lexical.lowerAscii 0xFEFF = 0xFEFF := by decide
+  simp [Spec.Lexical.isReservedWord, Spec.Lexical.startsWithCI, h]
+
+private theorem bom_softBad (dia : Dialect) : Model.Lexer.softBad dia 0xFEFF = true := by cases dia <;> decide
+
+private theorem bom_bareStart (dia : Dialect) (col : Nat) : Model.Lexer.bareStart dia 0xFEFF col = true := by
+  cases dia <;> simp [Model.Lexer.bareStart, bom_cls1, bom_cls2]
+
+open Model.Lexer Model.Chars Gen.ErrCodes Spec.Lexical in
+/-- **C11, byte-order mark between tokens** — next_token called anywhere in the input (any line, any column, any previous token
+    type `lt`), in front of ANY run `w` of whitespace and comments that brings the scanner to a place where a token may begin
+    (the run is non-empty, or the previous token needs no whitespace behind it), then U+FEFF, then any characters `s2` of a
+    whitespace-delimited value, then whitespace or the end of the input:
+    * accept-all: the token is the VALUE `U+FEFF s2` (the mark is kept as the first character), the scanner stands behind it,
+      and exactly the reports of `disReps` were made, all at the line and column of the U+FEFF — ONE CIF_DISALLOWED_CHAR in
+      CIF 2.0 mode, TWO in CIF 1.1 mode (not a CIF character, and not ASCII);
+    * `cif_parse_error_die`: the call ends with CIF_DISALLOWED_CHAR after that one report.
+    Nothing is reported by scan_ws for it and it is not skipped: only the very first character of the input is treated as a
+    byte-order mark (`C11_bom_only_first`: get_first_char / cif_parse_internal). -/
+theorem C11_bom_between_tokens (dia : Dialect) (w : List WsAtom) (s2 ctx : Str) (line col : Nat) (lt : TokType) (log : List Report)
+    (hok : ∀ a ∈ w, a.ok dia = true) (hfit : linesFit col (renderWs w) = true)
+    (hfirst : afterWsOf lt = true ∨ ∀ b rest, w ≠ WsAtom.comment b :: rest)
+    (hws : (afterWsOf lt || !w.isEmpty) = true)
+    (h2 : nonBlankOk dia s2 = true)
+    (hbr : dia = .cif2 → s2.all (fun x => !(x == 91 || x == 93 || x == 123 || x == 125)) = true)
+    (hctx : wsOrEnd ctx = true) :
+    let line' := (posAfter line col (renderWs w)).1
+    let col' := (posAfter line col (renderWs w)).2
+    nextToken dia ⟨renderWs w ++ 0xFEFF :: (s2 ++ ctx), line, col, lt⟩ acceptAll log
+        = .ok (⟨.value, 0xFEFF :: s2, line', col' + 1 + colAdd s2⟩, ⟨ctx, line', col' + 1 + colAdd s2, .value⟩)
+            (disReps dia 0xFEFF line' (col' + 1) ++ log)
+    ∧ (dia = .cif2 → disReps dia 0xFEFF line' (col' + 1) = [⟨CIF_DISALLOWED_CHAR, line', col' + 1⟩])
+    ∧ (dia = .cif1 → disReps dia 0xFEFF line' (col' + 1)
+        = [⟨CIF_DISALLOWED_CHAR, line', col' + 1⟩, ⟨CIF_DISALLOWED_CHAR, line', col' + 1⟩])
+    ∧ nextToken dia ⟨renderWs w ++ 0xFEFF :: (s2 ++ ctx), line, col, lt⟩ dieAll log
+        = .abort CIF_DISALLOWED_CHAR (⟨CIF_DISALLOWED_CHAR, line', col' + 1⟩ :: log) := by
+  intro line' col'
+  have hD := (C12_disallowed_char dia 0xFEFF (bom_softBad dia)).1
+  have hv := (C12_defective_unit dia 0xFEFF 0xFEFF (disReps dia 0xFEFF) hD [] s2 ctx line' col' .end_ log rfl).2.2
+    (by simp [nonBlankOk, okUnits]) h2 (by simpa using hbr) (by simpa using bom_bareStart dia col') (by simpa using bom_not_reserved s2) hctx
+  have hsep : ∀ pol, nextToken dia ⟨renderWs w ++ 0xFEFF :: (s2 ++ ctx), line, col, lt⟩ pol log
+      = nextToken dia ⟨0xFEFF :: (s2 ++ ctx), line', col', .end_⟩ pol log :=
+    fun pol => C01_lex_sep dia w _ line col lt .end_ pol log hok hfit hfirst (by rw [hws]; rfl)
+  have h1 : disReps .cif2 0xFEFF line' (col' + 1) = [⟨CIF_DISALLOWED_CHAR, line', col' + 1⟩] := by
+    simp [disReps, disallowedBmp]
+  have h1' : disReps .cif1 0xFEFF line' (col' + 1)
+      = [⟨CIF_DISALLOWED_CHAR, line', col' + 1⟩, ⟨CIF_DISALLOWED_CHAR, line', col' + 1⟩] := by
+    simp [disReps, disallowedBmp, cif1MaxChar]
+  have ha : nextToken dia ⟨0xFEFF :: (s2 ++ ctx), line', col', .end_⟩ acceptAll log
+      = .ok (⟨.value, 0xFEFF :: s2, line', col' + 1 + colAdd s2⟩, ⟨ctx, line', col' + 1 + colAdd s2, .value⟩)
+          (disReps dia 0xFEFF line' (col' + 1) ++ log) := by
+    simpa [colAdd] using hv
+  refine ⟨by rw [hsep]; exact ha, fun h => by subst h; exact h1, fun h => by subst h; exact h1', ?_⟩
+  rw [hsep]
+  cases dia with
+  | cif2 =>
+    rw [h1] at ha
+    exact die_of_accept (d := []) (r := ⟨CIF_DISALLOWED_CHAR, line', col' + 1⟩) (nextToken_detl .cif2 _) (by simpa using ha)
+  | cif1 =>
+    rw [h1'] at ha
+    exact die_of_accept (d := [⟨CIF_DISALLOWED_CHAR, line', col' + 1⟩]) (r := ⟨CIF_DISALLOWED_CHAR, line', col' + 1⟩)
+      (nextToken_detl .cif1 _) (by simpa using ha)
+
+open Model.Lexer Spec.Lexical in
+/-- the hypotheses are satisfiable, and the instance evaluated by the kernel: `_a␠␠<U+FEFF>x␠_b` scanned from behind `_a`
+    (line 3, column 2, previous token a data name): value `<U+FEFF>x`, one report (CIF 2.0) resp. two (CIF 1.1) at column 5 -/
+example :
+    nextToken .cif2 ⟨32 :: 32 :: 0xFEFF :: 120 :: 32 :: 95 :: 98 :: [], 3, 2, .name⟩ acceptAll []
+      = .ok (⟨.value, [0xFEFF, 120], 3, 6⟩, ⟨[32, 95, 98], 3, 6, .value⟩) [⟨Gen.ErrCodes.CIF_DISALLOWED_CHAR, 3, 5⟩] :=
+  (C11_bom_between_tokens .cif2 [.blank 32, .blank 32] [120] [32, 95, 98] 3 2 .name [] (by decide) (by decide)
+    (Or.inr (by intro b rest h; cases h)) (by decide) (by decide) (by intro _; decide) (by decide)).1
+
+open Model.Lexer Spec.Lexical in
+example :
+    nextToken .cif1 ⟨32 :: 0xFEFF :: 120 :: [], 1, 0, .name⟩ acceptAll []
+      = .ok (⟨.value, [0xFEFF, 120], 1, 3⟩, ⟨[], 1, 3, .value⟩)
+          [⟨Gen.ErrCodes.CIF_DISALLOWED_CHAR, 1, 2⟩, ⟨Gen.ErrCodes.CIF_DISALLOWED_CHAR, 1, 2⟩] :=
+  (C11_bom_between_tokens .cif1 [.blank 32] [120] [] 1 0 .name [] (by decide) (by decide)
+    (Or.inr (by intro b rest h; cases h)) (by decide) (by decide) (by intro h; cases h) (by decide)).1
 
 /-- **C11, same text in any signature-announced encoding — what is proved**: two inputs that are both recognised by their Unicode
     signatures and whose DECODED texts begin alike (same version comment, same initial BOM, both non-empty or both empty) are
